@@ -39,6 +39,11 @@ def run(ctx):
     c17.r4(a)
     from .c03 import reap_state
     reap_state(ctx, "C04.R6")
+    # stop() and kill_workers() walk the worker table while the workers they signal die: the SIGCHLD handler pops entries in
+    # between -- a RuntimeError there ends halt() before the final SIGKILL pass and the pid-file unlink
+    ctx.rule("C04.R7", "K9", "(= C03.R7) the shutdown sequence survives the SIGCHLDs it causes: no live iteration of WORKERS in master context")
+    from . import c03 as _c03
+    _c03.r7(MultiAlias(ctx, {"C03.R7": "C04.R7"}))
 
 
 def r1(ctx):
@@ -295,6 +300,24 @@ def r3(ctx):
                 ctx.check("C04.R3", got == {want}, key(f, "gevent-drain|%s" % (pattern,)), site(f, text="listeners busy=%s" % (pattern,)),
                           "with listener pools busy=%s the graceful drain loop does %s, required %s: a request in flight on one listener is cut as soon as another listener is idle" % (
                               pattern, sorted(got), want), want)
+            # gevent's BaseServer.stop() is close() + pool.join(timeout=stop_timeout, 1 s by default) + pool.kill(): it may only
+            # run once the graceful deadline has passed (the false edge of the drain loop's own condition)
+            stops = [n for c in walk_own(f.node) if isinstance(c, ast.Call) and isinstance(c.func, ast.Attribute) and c.func.attr in ("stop", "kill") for n in nodes_with(f, c)]
+            alive_loops = [x for x in walk_own(f.node) if isinstance(x, ast.While) and any(isinstance(y, ast.Attribute) and y.attr == "alive" for y in ast.walk(x.test))]
+            if stops and alive_loops and wt:
+                start = [(t, "false") for t in g.tests() if t.stmt is alive_loops[0]]
+                for sn in stops:
+                    # (`kill` behind a `hasattr(.., 'kill')` test is the pre-1.0 spelling of close(): reviewed exception)
+                    if any(isinstance(a, ast.If) and "hasattr" in norm(a.test) for a in f.module.ancestors(sn.ast)):
+                        continue
+                    cut = [(t, "false") for t in wt]
+                    pth = None
+                    if sn in g.reachable(start, without_edges=cut, follow_exc=False):
+                        first_ = [b for t, l0 in start for b, l in t.out if l == l0]
+                        pth = next((p_ for p_ in (g.path(b, [sn], without_edges=cut, follow_exc=False) if b is not sn else [sn] for b in first_) if p_), [sn])
+                    ctx.check("C04.R3", pth is None, key(f, "gevent-stop-before-deadline|" + sn.text[:30]), site(f, sn),
+                              "`%s` can run before the graceful deadline has passed: gevent's server.stop() joins the handler pool for one second and then kills it, so a request in flight longer than "
+                              "that at TERM is cut although graceful_timeout has not expired" % sn.text, "stop()/kill() only after the drain loop timed out", path=pth and g.fmt_path(pth))
     # the thread pool is shut down without cancelling queued (already accepted) requests
     for f in repo.cls("gunicorn.workers.gthread.ThreadWorker").methods.values():
         for c in method_calls(f, "shutdown"):
@@ -320,6 +343,27 @@ def r3(ctx):
                       "after the request was read, `%s` decides whether handle_request leaves through `%s` without resp.close(): a request in flight at TERM is dropped" % (
                           t.text, sorted(n.text for n in dep)[0] if dep else ""), "no exit before resp.close() depends on `alive`")
         ctx.count("alive tests in handlers", len(tests))
+    listener_before_read(ctx, "C04.R3")
+
+
+def listener_before_read(ctx, rid):
+    """The async workers close their listeners as soon as `alive` goes false (TERM, HUP retirement, max_requests) while
+    connections they accepted are still being served by other greenlets. A connection handler may therefore consult the
+    listening socket (getsockname() for SERVER_NAME/PORT) only before it first waits for the client: any use of the listener
+    after a read from the parser can hit a closed descriptor (EBADF) -- the request is then dropped without a response."""
+    repo = ctx.repo
+    f = ctx.fn(repo.func("gunicorn.workers.base_async.AsyncWorker.handle"))
+    g = f.cfg
+    LP = f.params[1]
+    reads = [n for c in walk_own(f.node) if isinstance(c, ast.Call) and isinstance(c.func, ast.Name) and c.func.id == "next" for n in nodes_with(f, c)]
+    ctx.need(reads, rid + ": AsyncWorker.handle does not read requests with next(parser)")
+    uses = [n for n in g.nodes if n.ast is not None and n.kind in ("stmt", "test", "for", "with") and any(isinstance(x, ast.Name) and x.id == LP and isinstance(x.ctx, ast.Load) for root in n.cover for x in ast.walk(root))]
+    after = g.reachable([b for r in reads for b, l in r.out], follow_exc=True)
+    late = [u for u in uses if u in after or u in reads]
+    ctx.check(rid, not late, key(f, "listener-only-before-first-read"), site(f, late[0] if late else None),
+              "`%s` uses the listening socket after the handler has waited for the client (next(parser)): by then a worker that was told to stop has closed its listeners, the call fails "
+              "with EBADF and a request that was already being read is dropped without a response" % (late[0].text if late else ""), "listener consulted before the first read only")
+    ctx.count("listener uses in AsyncWorker.handle", len(uses))
 
 
 def r4(ctx):
